@@ -33,6 +33,35 @@ UNITS = {
     },
 }
 
+UNITS["orswot"] = {
+    "kind": "kani",
+    "crate": "harness/orswot",
+    "harness_mod": "orswot::verif_contracts",
+    "kani_flags": [],
+    "sources": ["datacake-crdt/src/orswot.rs", "datacake-crdt/src/timestamp.rs"],
+    "slice": [{
+        "mode": "whole", "src": "datacake-crdt/src/orswot.rs", "out": "orswot.rs",
+        "use_rewrites": [(r"std::collections", "vcoll")], "min_rewrites": 2,
+        "require": [r"fn insert_with_source", r"fn delete_with_source", r"fn will_apply", r"fn try_update_max_stamp",
+                    r"fn compute_safe_last_stamp", r"fn is_ts_before_last_observed_event", r"fn check_self_then_insert_to",
+                    r"fn purge_old_deletes", r"fn diff", r"fn merge"],
+        "append": ['#[cfg(kani)] #[path = "/verif/harness/orswot/src/contracts.rs"] mod verif_contracts;'],
+    }],
+    "extraction": "whole-file copy of orswot.rs; `use std::collections...` lines redirected to vcoll; one `mod` line appended to mount the contract module; timestamp.rs via #[path] unedited",
+    "functions": [
+        "NodeVersions::try_update_max_stamp", "NodeVersions::compute_safe_last_stamp",
+        "NodeVersions::is_ts_before_last_observed_event", "OrSWotSet::will_apply", "OrSWotSet::get",
+        "OrSWotSet::insert_with_source", "OrSWotSet::delete_with_source", "OrSWotSet::check_self_then_insert_to",
+    ],
+    "assumptions": [
+        "vcoll havoc maps model std BTreeMap/HashMap get/insert/remove/entry on the touched keys (assumed contract on std::collections, validated differentially)",
+        "every stored stamp satisfies the HLCTimestamp type invariant (fraction < 250) and newest stamps are keyed by their own origin node (wf_origin)",
+        "state invariant assumed on entry and proved on exit: live/dead disjoint at the touched keys; cut-off == cut(min over sources) at the touched origins",
+        "real-build constants: N = 2 sources, FORGIVENESS_PERIOD = 3600 s (cfg!(test) is false in the harness crate)",
+    ],
+    "timeout_quick": 900,
+}
+
 # --------------------------------------------------------------------------- obligations
 # name -> dict(unit, harness|file, cls, bound, tier, fn, stmt)
 OBLIGATIONS = {}
@@ -76,6 +105,27 @@ for _i, _few in enumerate([True, True, True, True, False, False]):
        f"real splitn on a concrete input with {_i} field(s): " +
        ("always Err" if _few else "reaches the four-field path; Ok and Err both reachable, no panic"))
 
+# ---- unit orswot (class P: havoc state = arbitrary unbounded set)
+_k("os_safe_stamp", "orswot", "P", "NodeVersions::compute_safe_last_stamp",
+   "L'(node) == cut(min over sources of (M_s(node) or zero(node))); M unchanged; other origins untouched")
+_k("os_before", "orswot", "P", "NodeVersions::is_ts_before_last_observed_event",
+   "result == (L(node(ts)) defined and ts < L(node(ts)))")
+_k("os_versions_update", "orswot", "P", "NodeVersions::try_update_max_stamp",
+   "accepted <=> not before the forgiving cut-off; accepted: M'_source == max(M_source, ts), L' recomputed; refused: nothing changes; frame")
+_k("os_will_apply", "orswot", "P", "OrSWotSet::will_apply",
+   "result == not before(L, ts) and ts strictly newer than the held entry / tombstone; pure")
+_k("os_get", "orswot", "P", "OrSWotSet::get", "get(k) == the live stamp at k")
+_k("os_insert_contract", "orswot", "P", "OrSWotSet::insert_with_source",
+   "before cut-off: false, unchanged; else slot' == k_insert(slot, ts), r == (slot changed), versions updated, "
+   "bystander key/origin untouched, invariants kept; will_apply just before == r (ts != held tombstone stamp)")
+_k("os_delete_contract", "orswot", "P", "OrSWotSet::delete_with_source",
+   "before cut-off: false, unchanged; else slot' == k_delete(slot, ts), r == (slot changed), versions updated, "
+   "frame, invariants kept; will_apply just before == r")
+_k("os_cutoff_monotone", "orswot", "P", "insert_with_source / delete_with_source",
+   "for stamps >= epoch + 1h: L'(n) >= L(n) after any insert or delete (refusals are permanent)")
+_k("os_lacks", "orswot", "P", "OrSWotSet::check_self_then_insert_to",
+   "appends (k, ts) iff ts strictly newer than held entry, else than held tombstone, else (nothing held) not before the cut-off; S unchanged")
+
 # --------------------------------------------------------------------------- properties
 PROPERTIES = {
     "C09": {
@@ -87,6 +137,11 @@ PROPERTIES = {
         "level": "proof",
         "explanation": "",
         "assumptions": [],
+    },
+    "C04": {
+        "obligations": ["os_safe_stamp", "os_before", "os_versions_update", "os_will_apply", "os_get",
+                        "os_insert_contract", "os_delete_contract", "ts_order_lex"],
+        "level": "proof", "explanation": "", "assumptions": [],
     },
     "C10": {
         "obligations": [
